@@ -66,7 +66,7 @@ def draw_ctx_factory(cap_mass):
 
 
 def run_molecule(text, sched_kwargs, props=("C04", "C05", "C06", "C07", "C08"), embed="stub", embed_fault_at=None,
-                 forced_draws=None, cap_mass=None, wall=60, expect_complete=True, ast=None, keep_world=True, sched_obj=None, draw_ctx_fn=None, reuse_obj=None, entry="molecule",
+                 forced_draws=None, cap_mass=None, wall=150, expect_complete=True, ast=None, keep_world=True, sched_obj=None, draw_ctx_fn=None, reuse_obj=None, entry="molecule",
                  pre_generate_seed=None):
     """Generate one molecule from `text` under the simulator.  Returns RunOutcome."""
     g = boot.load()
